@@ -1,6 +1,10 @@
 package main
 
 import (
+	"encoding/json"
+	"encoding/pem"
+	"path/filepath"
+	"regexp"
 	"os"
 	"os/exec"
 	"sort"
@@ -335,6 +339,81 @@ func init() {
 			}
 			out.Sample(map[string]interface{}{"ops": "run; Set(A=5); run; child=Filter; Set(A=6); run; run child; Set(empty); run; run child", "observed": got})
 		}
+		// ---- through the command-line tool: an option given with -config reaches the lint, and an inapplicable section is
+		// that lint's fatal, with and without flags that narrow the set of lints
+		if bin := os.Getenv("VERIF_CLI"); bin != "" {
+			tmp, _ := os.MkdirTemp("", "verif-c11-")
+			defer os.RemoveAll(tmp)
+			corpus := loadCorpus()
+			type cliCase struct {
+				lint, src, cfg, file string
+			}
+			cases := []cliCase{
+				{"e_subj_contains_html_entities", "Community", "[e_subj_contains_html_entities]\nSkip = true\n", "html_entity_ko1.pem"},
+				{"e_subj_contains_html_entities", "Community", "[e_subj_contains_html_entities]\nSkip = 7\n", "html_entity_ko1.pem"},
+				{"e_subj_contains_html_entities", "Community", "e_subj_contains_html_entities = 5\n", "html_entity_ko1.pem"},
+				{"e_crl_next_update_invalid", "CABF_BR", "[e_crl_next_update_invalid]\nSubscriberCRL = false\n", "crl_nextupdate_nup1_sub0_len0_eff0.pem"},
+				{"e_crl_next_update_invalid", "CABF_BR", "[e_crl_next_update_invalid]\nSubscriberCRL = \"no\"\n", "crl_nextupdate_nup1_sub0_len0_eff0.pem"},
+				{"e_crl_next_update_invalid", "CABF_BR", "e_crl_next_update_invalid = true\n", "crl_nextupdate_nup1_sub0_len0_eff0.pem"},
+				{"e_subj_orgunit_in_ca_cert", "CABF_BR", "[e_subj_orgunit_in_ca_cert]\nCrossCert = true\n", "orgunit_in_ca_ko1.pem"},
+				{"e_rsa_fermat_factorization", "Community", "[e_rsa_fermat_factorization]\nRounds = \"many\"\n", "html_entity_ko1.pem"},
+			}
+			cliRuns := 0
+			for ci, cc := range cases {
+				var pemBytes []byte
+				var crt *x509.Certificate
+				var crl *x509.RevocationList
+				for _, c := range corpus.Certs {
+					if c.File == cc.file {
+						pemBytes, crt = pem.EncodeToMemory(&pem.Block{Type: "CERTIFICATE", Bytes: c.DER}), c.Cert
+					}
+				}
+				for _, c := range corpus.CRLs {
+					if c.File == cc.file {
+						pemBytes, crl = pem.EncodeToMemory(&pem.Block{Type: "X509 CRL", Bytes: c.DER}), c.CRL
+					}
+				}
+				cfg, err := lint.NewConfigFromString(cc.cfg)
+				if pemBytes == nil || err != nil {
+					continue
+				}
+				cfgPath, objPath := filepath.Join(tmp, fmt.Sprintf("c%d.toml", ci)), filepath.Join(tmp, fmt.Sprintf("o%d.pem", ci))
+				os.WriteFile(cfgPath, []byte(cc.cfg), 0o600)
+				os.WriteFile(objPath, pemBytes, 0o600)
+				sels := []selection{
+					{nil, lint.FilterOptions{}},
+					{[]string{"-includeNames", cc.lint}, lint.FilterOptions{IncludeNames: []string{cc.lint}}},
+					{[]string{"-nameFilter", "^" + cc.lint[:9]}, lint.FilterOptions{NameFilter: regexp.MustCompile("^" + cc.lint[:9])}},
+					{[]string{"-includeSources", cc.src}, lint.FilterOptions{IncludeSources: lint.SourceList{lint.LintSource(cc.src)}}},
+					{[]string{"-excludeSources", "Mozilla"}, lint.FilterOptions{ExcludeSources: lint.SourceList{lint.MozillaRootStorePolicy}}},
+					{[]string{"-excludeNames", "e_ca_is_ca"}, lint.FilterOptions{ExcludeNames: []string{"e_ca_is_ca"}}},
+				}
+				for _, sel := range sels {
+					r := runCLI(bin, append(append([]string{"-config", cfgPath}, sel.flags...), objPath), nil)
+					cliRuns++
+					fr, e := g.Filter(sel.opts)
+					if e != nil {
+						continue
+					}
+					fr.SetConfiguration(cfg)
+					var want *lint.LintResult
+					if crl != nil {
+						want = zlint.LintRevocationListEx(crl, fr).Results[cc.lint]
+					} else {
+						want = zlint.LintCertificateEx(crt, fr).Results[cc.lint]
+					}
+					var got map[string]*lint.LintResult
+					_ = json.Unmarshal([]byte(r.stdout), &got)
+					gr := got[cc.lint]
+					if want == nil || gr == nil || gr.Status != want.Status || gr.Details != want.Details {
+						out.Violate("C11|cli-option-lost:"+cc.lint, fmt.Sprintf("zlint -config (%q) %v %s: %s reports %s, the library under the same configuration and selection %s (exit %d, stderr %.200q)",
+							cc.cfg, sel.flags, cc.file, cc.lint, showRes(gr), showRes(want), r.code, r.stderr),
+							map[string]interface{}{"config": cc.cfg, "flags": sel.flags, "file": cc.file, "lint": cc.lint}, showRes(want), showRes(gr))
+					}
+				}
+			}
+			out.Stats["cli_config_runs"] = cliRuns
+		}
 		// ---- configuration histories: the verdict under a configuration must not depend on which configurations the same
 		// registry (and process) has seen before: the variants are applied in both orders, each order in its own process
 		{
@@ -591,4 +670,11 @@ func init() {
 		fmt.Println(strings.Join(lines, "\n"))
 		return nil
 	}
+}
+
+func showRes(r *lint.LintResult) string {
+	if r == nil {
+		return "nothing"
+	}
+	return fmt.Sprintf("%s %q", r.Status, r.Details)
 }
